@@ -42,7 +42,10 @@ pub(in crate::primitives::line) struct ParallelsIterator {
     ///
     /// The thickness threshold is compared with the thickness accumulator to stop the iterator once
     /// the desired line thickness is reached.
-    thickness_threshold: i32,
+    ///
+    /// The threshold is stored as an `i64`, because the value doesn't fit into an `i32` for long
+    /// and thick lines.
+    thickness_threshold: i64,
 
     /// Changes the sign of initial error variables.
     ///
@@ -93,7 +96,8 @@ impl ParallelsIterator {
 
         // Thickness threshold, taking into account that fewer pixels are required to draw a
         // diagonal line of the same perceived width.
-        let thickness_threshold = (thickness * 2).pow(2) * line.delta().length_squared();
+        let thickness_threshold =
+            (i64::from(thickness) * 2).pow(2) * i64::from(line.delta().length_squared());
         let thickness_accumulator =
             (parallel_parameters.error_step.minor + parallel_parameters.error_step.major) / 2;
 
@@ -165,7 +169,7 @@ impl Iterator for ParallelsIterator {
     type Item = (Bresenham, ParallelLineType);
 
     fn next(&mut self) -> Option<Self::Item> {
-        if self.thickness_accumulator.pow(2) > self.thickness_threshold {
+        if i64::from(self.thickness_accumulator).pow(2) > self.thickness_threshold {
             return None;
         }
 
